@@ -76,7 +76,7 @@ def run(tier, replay):
     tot = [sum(c[1][i] for c in census) for i in range(7)]
     if tot[6] != 0:
         lib.tool_error("model: a divergence outside the signed classes exists")
-    if not replay and (tot[1] == 0 or tot[2] == 0 or tot[3] == 0 or tot[4] == 0):
+    if not replay and (tot[1] == 0 or tot[2] == 0 or tot[3] == 0 or tot[4] == 0):  # refused, both translation classes, pre-repair witnesses
         lib.tool_error(f"model census is vacuous: {tot}")
     if not replay and cases:
         cf, obs2 = f"{wd}/cases.ndjson", f"{wd}/obs_cases.ndjson"
@@ -114,7 +114,7 @@ def run(tier, replay):
         "exhaustive": True,
         "l2_drift": len(drift),
         "model_census": dict(zip(["states", "refused", "div_ldap_substring_split", "div_scim_order_string", "div_andnot_isolated",
-                                  "div_andnot_partial", "div_unexplained"], tot)),
+                                  "div_andnot_partial", "div_unexplained"], tot)),   # andnot classes: pre-repair code only (regression witnesses)
         "mc_shards": [c[0] for c in census],
         "tlc_cases_replayed": len(cases),
         "observed": stats,
